@@ -337,6 +337,7 @@ class ListGen:
         """repeat entries of the list-valued members of a rendered document (ids kept: the same object twice)"""
         r = self.rng
         doc = copy.deepcopy(doc)
+        extra_groups = {g.get("name"): g.get("uuid") for g in doc.get("groups", []) or []}
         for fl in doc.get("flows", []):
             for n in fl.get("nodes", []):
                 for a in n.get("actions", []) or []:
@@ -351,8 +352,13 @@ class ListGen:
                         if r.random() < 0.6:
                             g0 = a["groups"][0]
                             more = [copy.deepcopy(g0)]
-                            if doc.get("groups") and r.random() < 0.6:
-                                more.append(copy.deepcopy(r.choice(doc["groups"])))
+                            if doc.get("groups") and r.random() < 0.7:
+                                more += [copy.deepcopy(r.choice(doc["groups"])) for _ in range(r.randint(1, 3))]
+                            if r.random() < 0.5:
+                                # groups the document does not list, under near-duplicate names (one uuid per name)
+                                for nm in self.bag(GROUP_POOL, 1, 3):
+                                    more.append({"uuid": extra_groups.setdefault(nm, sheetgen.new_uuid(r)), "name": nm})
+                            r.shuffle(more)
                             a["groups"] = a["groups"] + [{"uuid": g.get("uuid"), "name": g.get("name")} for g in more]
                             self.note("file:action_groups", [g["name"] for g in a["groups"]])
                 rt = n.get("router") or {}
